@@ -98,12 +98,18 @@ func (h264dp *h264Depacketizer) depacketizeStapa(packet *Packet) (err error) {
 	// 循环读取被封装的NAL
 	for {
 		// nal长度
+		if off+2 > len(payload) { // 长度字段不完整
+			return
+		}
 		nalSize := ((uint16(payload[off])) << 8) | uint16(payload[off+1])
 		if nalSize < 1 {
 			return
 		}
 
 		off += 2
+		if off+int(nalSize) > len(payload) { // 截断的聚合单元，整体丢弃
+			return
+		}
 		frame := &codec.Frame{
 			MediaType: codec.MediaTypeVideo,
 			Payload:   make([]byte, nalSize),
